@@ -23,6 +23,11 @@ def shards(mode, bin_, n, **kw):
 
 
 PROPS = {
+    "C19": {
+        "runs": [native("c19")],
+        "expect_monitors": ["samples_within_requested_range", "samples_uniform_in_volume"],
+        "assumptions": ASSUME_COMMON + ["rand 0.8 StdRng / rand_mt Mt64 produce uniform variates and rand's Uniform<f32|f64> honours its range", "chi-square critical value for 31 degrees of freedom at p = 1e-12 (121.9, from scipy) typed into the harness"],
+    },
     "C17": {
         "runs": [native("c17")],
         "expect_monitors": ["simd_conversion_lanes_equal_scalar", "simd_masks_packing_and_operators", "f32_agrees_with_f64"],
